@@ -1756,6 +1756,7 @@ def run_check(ctx, prop):
     _codec_cases(ctx, rng, quick)
     if prop == "C11":
         run_c11_reply_sizes(ctx)
+    run_main_cases(ctx, prop)
     _system_cases(ctx, rng, quick)
 
     # ---- client scripts
@@ -1842,6 +1843,8 @@ def replay(ctx, rp, prop):
         return replay_c11_reply_size(rp)
     if r.get("oracle") == "system":
         return replay_flows(prop, rp)
+    if r.get("oracle") == "client-main":
+        return replay_main(prop, rp)
     if "witness" in r:
         fails, last = witness_fails(r["witness"])
         print("witness", r["witness"], "->", last)
@@ -2745,3 +2748,379 @@ def replay_c11_reply_size(rp):
     verdict, detail, _ = reply_size_case(r["lbs"], r["size"], r["v6"], r["seed"])
     print("reply-size case ->", verdict, detail)
     return not verdict.startswith("ok_")
+
+
+# ======================================================================
+# where C10 / C11 start: client._main registers the listeners (real MultiListener.add_handler, real runonce)
+
+class MainStop(BaseException):
+    pass
+
+
+def run_client_main(case):
+    """Drives the REAL client._main: fake ssh.connect (scripted server stream: sync string + ROUTES, later the replies),
+    a firewall-client stub whose start() succeeds, REAL client.MultiListener objects for TCP / UDP / DNS whose v6 / v4
+    sockets are created by the real MultiListener.bind through a fake socket.socket, the REAL ssnet.runonce with a
+    scripted select().  case = {"method": "T"|"B", "udp": bool, "dns": bool, "v6": bool, "v4": bool, "events": [...]}
+      events: ["dns", fam, src, dst|None, payloadhex] | ["udp", fam, src, dst, payloadhex] | ["tcp", fam, src, dst]
+              | ["reply", index of the event answered, payloadhex]            (fam = 4 | 6)
+    Returns {"status", "start": fw.start calls, "reg": {listener socket label: number of handlers holding it},
+             "events": [{"frames": [(ch, cmd, data)] written to the tunnel, "dgrams": [...], "unregistered": bool}]}"""
+    import sshuttle.client as client
+    import sshuttle.ssnet as ssnet
+    import sshuttle.helpers as helpers
+    import sshuttle.methods as methods
+    import sshuttle.methods.tproxy as tproxy
+    AF6, AF4 = real_socket.AF_INET6, real_socket.AF_INET
+
+    class W:
+        pass
+    world = W()
+    world.now, world.dgrams, world.label, world.lsocks, world.wire = 100, [], "?", {}, bytearray()
+
+    class TSock(FakeTcpSock):
+        """an accepted connection: silent (its Proxy is woken together with the tunnel and finds nothing to read)"""
+
+        def recv(self, n):
+            raise BlockingIOError(errno.EAGAIN, "no data")
+
+        def send(self, b):
+            return len(b)
+
+    class LSock:
+        """a listening socket (non-blocking: reading with nothing queued fails with EAGAIN)"""
+
+        def __init__(self, family, typ=0, proto=0):
+            self.family, self.type = family, typ
+            self.label = world.label + ("6" if family == AF6 else "4")
+            self.q = []
+            self.id = len(world.lsocks)
+            world.lsocks[self.label] = self
+
+        def __repr__(self):
+            return "<%s>" % self.label
+
+        def fileno(self):
+            return 200 + self.id
+
+        def bind(self, a):
+            self.bound = a
+
+        def setsockopt(self, *a):
+            pass
+
+        def listen(self, n):
+            pass
+
+        def setblocking(self, b):
+            pass
+
+        def _take(self):
+            if not self.q:
+                raise BlockingIOError(errno.EAGAIN, "nothing queued on %s" % self.label)
+            return self.q.pop(0)
+
+        def accept(self):
+            src, dst = self._take()
+            return TSock(self.family, dst), src
+
+        def recvfrom(self, n):
+            src, dst, data = self._take()
+            return data[:n], src
+
+        def recvmsg(self, n, anc):
+            src, dst, data = self._take()
+            return data[:n], _cmsg_for(dst), 0, src
+
+        def sendto(self, data, dst):
+            world.dgrams.append(("via:" + self.label, addr_s(dst), bytes(data)))
+
+    class Sender:
+        """the transparent socket tproxy.send_udp creates"""
+
+        def __init__(self, family, typ=0, proto=0):
+            self.family, self.bound = family, None
+
+        def setsockopt(self, *a):
+            pass
+
+        def bind(self, a):
+            self.bound = a
+
+        def sendto(self, data, dst):
+            world.dgrams.append(("from:" + addr_s(self.bound), addr_s(dst), bytes(data)))
+
+        def close(self):
+            pass
+
+    class RecW:
+        def fileno(self):
+            return 1
+
+        def write(self, b):
+            world.wire += bytes(b)
+            return len(b)
+
+        def flush(self):
+            pass
+
+    class Proc:
+        pid = 4242
+
+        def poll(self):
+            return None
+
+    class FW:
+        def __init__(self, meth):
+            self.method, self.auto_nets, self.starts = meth, [], 0
+
+        def start(self):
+            self.starts += 1
+
+        def sethostip(self, *a):
+            pass
+
+    rfile, wfile = FakeR(), RecW()
+    rfile.chunks = [b"\0\0SSHUTTLE0001" + struct.pack("!ccHHH", b"S", b"S", 0, ssnet.CMD_ROUTES, 0)]
+    evs = case["events"]
+    res = {"status": None, "start": 0, "reg": None, "events": []}
+    state = {"i": -1, "rounds": 0, "mark": 0, "cur": None}
+
+    def frames_since(mark):
+        out, b = [], bytes(world.wire[mark:])
+        while len(b) >= 8:
+            s1, s2, ch, cmd, ln = struct.unpack("!ccHHH", b[:8])
+            out.append((ch, cmd, b[8:8 + ln]))
+            b = b[8 + ln:]
+        return out
+
+    def close_event():
+        if state["cur"] is not None:
+            state["cur"]["frames"] = frames_since(state["mark"])
+            state["cur"]["dgrams"] = list(world.dgrams)
+            res["events"].append(state["cur"])
+        state["mark"] = len(world.wire)
+        world.dgrams = []
+
+    def fake_select(r, w, x, timeout=None):
+        if timeout == 0:
+            return ([rfile] if rfile.chunks else [], [wfile], [])
+        state["rounds"] += 1
+        if state["rounds"] > 40 * (len(evs) + 2):
+            res["status"] = "LIVELOCK"
+            raise MainStop()
+        if rfile.chunks or wfile in w:                      # the tunnel has something to read or to write first
+            return ([rfile] if rfile.chunks else [], [wfile] if wfile in w else [], [])
+        close_event()
+        state["i"] += 1
+        if state["i"] >= len(evs):
+            raise MainStop()
+        ev = evs[state["i"]]
+        state["cur"] = {"unregistered": False}
+        for s in world.lsocks.values():
+            s.q[:] = []
+        if ev[0] == "reply":
+            asked = res["events"][ev[1]]["frames"] if ev[1] < len(res["events"]) else []
+            kind = evs[ev[1]][0]
+            want = {"dns": CMD["Q"], "udp": CMD["D"]}[kind]
+            chans = [f[0] for f in asked if f[1] == want]
+            if not chans:
+                state["cur"]["skipped"] = True
+                return ([], [], [])
+            if kind == "dns":
+                body, cmd = unhx(ev[2]), CMD["R"]
+            else:
+                d = evs[ev[1]][3]
+                body, cmd = ("%s,%d," % (d[0], d[1])).encode() + unhx(ev[2]), CMD["D"]
+            rfile.chunks.append(struct.pack("!ccHHH", b"S", b"S", chans[0], cmd, len(body)) + body)
+            return ([rfile], [], [])
+        sock = world.lsocks.get(ev[0] + ("6" if ev[1] == 6 else "4"))
+        if sock is None:
+            state["cur"]["skipped"] = True
+            return ([], [], [])
+        src, dst = tuple(ev[2]), (tuple(ev[3]) if ev[3] else None)
+        sock.q.append((src, dst) if ev[0] == "tcp" else (src, dst, unhx(ev[4])))
+        if sock not in r:
+            state["cur"]["unregistered"] = True              # nobody waits on this listener socket: the item stays unread
+            return ([], [], [])
+        return ([sock], [], [])
+
+    real_runonce = ssnet.runonce
+
+    def runonce(handlers, mux):
+        if res["reg"] is None:
+            res["reg"] = {}
+            for lab, s in world.lsocks.items():
+                res["reg"][lab] = sum(1 for h in handlers if h is not mux and s in getattr(h, "socks", []))
+        world.handlers = handlers
+        return real_runonce(handlers, mux)
+
+    meth = tproxy.Method("tproxy") if case["method"] == "T" else methods.BaseMethod("nat")
+    fw = FW(meth)
+    saved = (client.ssh, client.time, client.log, client.islocal, client.socket, tproxy.socket, ssnet.select, ssnet.runonce,
+             ssnet.set_non_blocking_io, ssnet.log, helpers.log, ssnet.MAX_CHANNEL)
+    try:
+        client.ssh = Shim(client.ssh, connect=lambda *a, **k: (Proc(), rfile, wfile))
+        client.time = clock_shim(world)
+        client.log = ssnet.log = helpers.log = lambda s: None
+        client.islocal = lambda ip, fam: False
+        client.socket = Shim(real_socket, socket=LSock)
+        tproxy.socket = Shim(real_socket, socket=Sender)
+        ssnet.select = Shim(real_select, select=fake_select)
+        ssnet.runonce = runonce
+        ssnet.set_non_blocking_io = lambda fd: None
+        client.dnsreqs.clear()
+        client.udp_by_src.clear()
+        a6 = ("::1", 12300, 0, 0) if case.get("v6", True) else None
+        a4 = ("127.0.0.1", 12300) if case.get("v4", True) else None
+        listeners = {}
+        for lab, typ, on in (("tcp", real_socket.SOCK_STREAM, True), ("udp", real_socket.SOCK_DGRAM, case["udp"]),
+                             ("dns", real_socket.SOCK_DGRAM, case["dns"])):
+            if on:
+                world.label = lab
+                listeners[lab] = client.MultiListener(typ)
+                listeners[lab].bind(a6, a4)
+            else:
+                listeners[lab] = None
+        try:
+            client._main(listeners["tcp"], listeners["udp"], fw, None, None, None, False, 32768, listeners["dns"],
+                         None, False, False, False, None, False, None)
+            res["status"] = "RETURNED"
+        except MainStop:
+            res["status"] = res["status"] or "stopped"
+        except helpers.Fatal as e:
+            res["status"] = "FATAL " + str(e)[:80]
+        except Exception as e:
+            res["status"] = "CRASH %s %s" % (exc_name(e), str(e)[:80])
+        if res["status"] != "stopped" and state["cur"] is not None:
+            close_event()
+    finally:
+        getattr(world, "handlers", [])[:] = []
+        (client.ssh, client.time, client.log, client.islocal, client.socket, tproxy.socket, ssnet.select, ssnet.runonce,
+         ssnet.set_non_blocking_io, ssnet.log, helpers.log, ssnet.MAX_CHANNEL) = saved
+        client.dnsreqs.clear()
+        client.udp_by_src.clear()
+    res["start"] = fw.starts
+    return res
+
+
+def main_oracle(prop, case, res):
+    """on the wire (the bytes the real Mux wrote) and on the fake sockets.  C10 judges the DNS and TCP listeners,
+    C11 the UDP and TCP listeners; both judge start-up, registration and 'nothing raises'"""
+    bad = []
+    mine = {"C10": ("dns", "tcp"), "C11": ("udp", "tcp")}[prop]
+    tag = prop.lower() + "_main_"
+    evs = case["events"]
+    if res["status"] != "stopped":
+        bad.append((tag + "raised", "client._main ended with %s after %d of %d events" % (res["status"], len(res["events"]), len(evs))))
+    if res["start"] != 1:
+        bad.append((tag + "startup", "fw.start() was called %d times after the ROUTES message" % res["start"]))
+    for lab, n in sorted((res["reg"] or {}).items()):
+        if n != 1 and lab[:3] in mine:
+            bad.append((tag + lab[:3] + "_listener_registration", "listener socket %s is held by %d handlers" % (lab, n)))
+    udp_seen = {}
+    for i, ev in enumerate(evs):
+        if i >= len(res["events"]):
+            break
+        got = res["events"][i]
+        frames, dgrams = got["frames"], got["dgrams"]
+        kind = ev[0] if ev[0] != "reply" else evs[ev[1]][0]
+        if ev[0] == "udp" and not got.get("skipped"):
+            first = tuple(ev[2][:2]) not in udp_seen
+            udp_seen[tuple(ev[2][:2])] = True
+        if kind not in mine or got.get("skipped"):
+            continue
+        fam = {4: 2, 6: 10}.get(ev[1]) if ev[0] != "reply" else None
+        if ev[0] == "dns":
+            ok = len(frames) == 1 and frames[0][1] == CMD["Q"] and frames[0][2] == unhx(ev[4]) and not dgrams
+            want = "exactly one DNS_REQ with the datagram's payload"
+        elif ev[0] == "udp":
+            hdr = ("%s,%d," % (ev[3][0], ev[3][1])).encode() + unhx(ev[4])
+            body = [(f[1], f[2]) for f in frames]
+            exp = ([(CMD["O"], b"%d" % fam)] if first else []) + [(CMD["D"], hdr)]
+            ok = body == exp and len(set(f[0] for f in frames)) == 1 and not dgrams
+            want = ("UDP_OPEN + " if first else "") + "one UDP_DATA with the captured destination %s port %d" % (ev[3][0], ev[3][1])
+        elif ev[0] == "tcp":
+            ok = len(frames) == 1 and frames[0][1] == CMD["TCPCONNECT"] and \
+                frames[0][2] == b"%d,%s,%d" % (fam, ev[3][0].encode(), ev[3][1]) and not dgrams
+            want = "exactly one TCP_CONNECT for %s port %d" % (ev[3][0], ev[3][1])
+        else:
+            q = evs[ev[1]]
+            asker = addr_s(tuple(q[2]))
+            if q[0] == "dns" and case["method"] == "B":
+                exp = [("via:dns%d" % q[1], asker, unhx(ev[2]))]
+            else:
+                exp = [("from:" + addr_s(tuple(q[3])), asker, unhx(ev[2]))]
+            ok = dgrams == exp and not frames
+            want = "one datagram %r" % (exp[0][:2],)
+        if not ok:
+            bad.append((tag + kind + "_listener", "event %d %r%s: expected %s; on the tunnel: %s; datagrams: %s"
+                        % (i, ev[:4], " (no handler waits on that listener socket)" if got.get("unregistered") else "", want,
+                           [(f[0], hex(f[1]), f[2][:40]) for f in frames] or "nothing", [d[:2] for d in dgrams] or "none")))
+    return bad
+
+
+def gen_main_case(rng, method, udp, dns, v6=True, v4=True):
+    fams = ([6] if v6 else []) + ([4] if v4 else [])
+    A = {4: [("10.0.0.5", 40001), ("10.0.0.6", 40002)], 6: [("fd00::5", 40001, 0, 0), ("fd00::6", 40002, 0, 0)]}
+    D = {4: [("192.0.2.7", 53), ("8.8.8.8", 4500), ("1.2.3.4", 13568)], 6: [("2001:db8::53", 53), ("fd00::9", 4500)]}
+    evs = []
+    n = 0
+    for fam in fams:
+        if dns:
+            for src in A[fam][:rng.randint(1, 2)]:
+                evs.append(["dns", fam, list(src), list(rng.choice(D[fam])[:1]) + [53] if method == "T" else None, hx(b"query-%d" % n)])
+                n += 1
+        if udp:
+            src = rng.choice(A[fam])
+            for d in rng.sample(D[fam], 2):
+                evs.append(["udp", fam, list(src), list(d), hx(b"dgram,%d" % n)])
+                n += 1
+        evs.append(["tcp", fam, list(A[fam][0][:2]) if fam == 4 else list(A[fam][0]), list(rng.choice(D[fam]))])
+    rng.shuffle(evs)
+    # every query / datagram is answered, in random order, after it was sent
+    out, pending = [], []
+    for ev in evs:
+        out.append(ev)
+        if ev[0] in ("dns", "udp"):
+            pending.append(len(out) - 1)
+        while pending and rng.random() < 0.4:
+            k = pending.pop(rng.randrange(len(pending)))
+            out.append(["reply", k, hx(b"answer-to-%d" % k)])
+    for k in pending:
+        out.append(["reply", k, hx(b"answer-to-%d" % k)])
+    return {"method": method, "udp": udp, "dns": dns, "v6": v6, "v4": v4, "events": out}
+
+
+def run_main_cases(ctx, prop):
+    rng, quick = ctx.rng, ctx.quick()
+    shapes = [("T", True, True, True, True), ("B", False, True, True, True), ("T", True, False, True, True),
+              ("T", False, True, True, True), ("B", False, False, True, True), ("T", False, False, True, True),
+              ("T", True, True, False, True), ("T", True, True, True, False), ("B", False, True, False, True),
+              ("B", False, True, True, False)]
+    cases = [gen_main_case(rng, *sh) for sh in shapes for _ in range(3 if quick else 40)]
+    for case in cases:
+        res = run_client_main(case)
+        ctx.count("main_runs")
+        ctx.count("main_runs_method_%s_udp_%s_dns_%s" % (case["method"], "on" if case["udp"] else "off", "on" if case["dns"] else "off"))
+        ctx.count("main_runs_sockets_%s" % ("v6+v4" if case["v6"] and case["v4"] else "v6" if case["v6"] else "v4"))
+        for ev in case["events"]:
+            ctx.count("main_events_%s%s" % (ev[0], "_v%d" % ev[1] if ev[0] != "reply" else ""))
+        ctx.case(("main", json_key(case)), nontrivial=len(res["events"]) > 1,
+                 sample={"side": "client._main", "method": case["method"], "udp_listener": case["udp"], "dns_listener": case["dns"],
+                         "events": len(case["events"]), "status": res["status"], "registered": res["reg"]})
+        for what, detail in main_oracle(prop, case, res):
+            ctx.violation(what, {"main_case": case, "detail": detail, "oracle": "client-main"})
+
+
+def json_key(case):
+    import json as _json
+    return _json.dumps(case, sort_keys=True)
+
+
+def replay_main(prop, rp):
+    case = rp["replay"]["main_case"]
+    res = run_client_main(case)
+    v = main_oracle(prop, case, res)
+    print("client._main ->", res["status"], res["reg"], v)
+    return bool(v)
